@@ -54,6 +54,9 @@ def statement_checks(c, o):
     thr = c["threshold"] - (1 if c["local"] in c["delegates"] else 0)
     if o["result"] == "Failed" and o["before"] != o["after"]:
         problems.append("fetch reported failure but storage changed")
+    if o["result"] == "Success" and c.get("fewOffered"):
+        # the threshold is about this fetch: delegates the peer does not offer with valid signed refs do not count
+        problems.append(f"fetch succeeded although fewer than {thr} delegates were offered with valid signed refs")
     if o["result"] == "Success":
         valid = [d for d in dels if d in o.get("validAfter", [])]
         if len(valid) < thr:
@@ -66,7 +69,7 @@ def run(ctx):
     ctx.build(F.ENGINE)
     threads = 8
     cfg = "MCFetch_c02_t.cfg" if thorough else "MCFetch_c02_q.cfg"
-    res = F.tlc_cases(ctx, cfg, "exhaustive: families delegates (k<=3) / blockdel; invariants C02_Gate C02_FewImpliesFailure C02_FailedUnchanged NoRewindAny ErrorBeforeApplyUnchanged C01_*; property C02_NoRewind",
+    res = F.tlc_cases(ctx, cfg, "exhaustive: families delegates (k<=3) / blockdel; invariants C02_Gate C02_FewImpliesFailure C02_FewOfferedImpliesFailure C02_FailedUnchanged NoRewindAny ErrorBeforeApplyUnchanged C01_*; property C02_NoRewind",
                       timeout=2400 if thorough else 600)
     if res.violated:
         ctx.violation(f"model:{res.violated}", "Fetch.tla violates the invariant in the bounded model (design-level counterexample)",
